@@ -15,11 +15,22 @@ R1 wiring of the dense / convolution arm of generate_layer_data_type_map:
    values, and the outgoing edge must receive accumulator.output.
 R2 channel loop of estimate.analyze_accumulator: a loop index that ranges
    over k.shape[p] and is used as k[..., i] requires p == -1.
+R3 exponent bookkeeping of power-of-two operands: the (min, max) exponent
+   pair that qtools derives from a converted quantized_po2 /
+   quantized_relu_po2 (get_min_max_exp, on which the shifter, po2 adders and
+   accumulators build their integer and fractional bits) must enclose the
+   exponent set that the qkeras quantizer itself can emit for the same
+   (bits, max_value) - the latter computed by value-set abstract
+   interpretation of the quantizer's own code (as in C03).
 """
 import ast
 
+from fractions import Fraction as F
+
 from ..loader import AnalysisError
-from ..pe import PE, Mock, PyRaise, Tensor, Fork, Unsupported
+from ..pe import PE, Mock, PyRaise, Tensor, Fork, Unsupported, ConfigRejected
+from .. import quant, oracle
+from ..qir import value_set
 
 TECHNIQUE = ("Partial evaluation of the dense/conv arm of the data-type map "
              "with recording factories (def-use wiring); AST index rule for "
@@ -27,6 +38,7 @@ TECHNIQUE = ("Partial evaluation of the dense/conv arm of the data-type map "
 
 GM = "qkeras.qtools.generate_layer_data_type_map"
 ES = "qkeras.estimate"
+QI = "qkeras.qtools.quantized_operators.quantizer_impl"
 
 
 def find_arm(fn):
@@ -271,6 +283,63 @@ def rule_channel_loop(rep, repo):
                         "analyze_accumulator")
 
 
+def rule_po2_exponents(rep, repo, tier):
+  qi = repo.module(QI)
+  if "PowerOfTwo" not in qi.classes or "get_exp" not in qi.functions:
+    raise AnalysisError("anchor-missing PowerOfTwo / get_exp in "
+                        "quantizer_impl")
+  unit = "%s::get_exp" % qi.relpath
+  rep.unit(unit)
+  loc = qi.loc(qi.functions["get_exp"])
+  bits_r = range(2, 7) if tier == "quick" else range(2, 9)
+  mvs = [None, F(1, 4), F(1, 2), 1, F(3, 2), 2, 3, 4, 5, 6, 7, 8, 12, 24, 100]
+  if tier == "thorough":
+    mvs += [F(1, 8), F(3, 4), 9, 11, 13, 16, 23, 32, 45, 48, 64, 91, 1000]
+  n = 0
+  for cls in ("quantized_po2", "quantized_relu_po2"):
+    for bits in bits_r:
+      for mv in mvs:
+        kw = dict(bits=bits, max_value=mv)
+        cfg = "%s(%s)" % (cls, oracle.show_kwargs(kw))
+        try:
+          b = quant.build(repo, cls, kw)
+        except ConfigRejected:
+          continue
+        vs = value_set(b.fwd("infer"))
+        if vs.kind != "po2":
+          # C03 reports this; nothing to compare here
+          continue
+        elo, ehi = vs.exps.bounds()
+        pe = PE(repo)
+        q = pe.call(pe.lookup_global("PowerOfTwo", qi),
+                    [cls == "quantized_po2"], {})
+        src = Mock(cls, {"__class__": Mock("class", {"__name__": cls}),
+                         "bits": bits, "max_value": mv, "negative_slope": 0})
+        try:
+          pe.call(pe.getattr(q, "convert_qkeras_quantizer"), [src], {})
+          r = pe.call(pe.getattr(q, "get_min_max_exp"), [], {})
+          mn, mx = F(r[0]), F(r[1])
+        except PyRaise as e:
+          rep.fail("R3", unit, "exponent-bookkeeping-raises",
+                   "%s: get_min_max_exp raises %s" % (cfg, e), loc=loc,
+                   instance=cfg)
+          continue
+        n += 1
+        rep.check(ehi <= mx, "R3", unit, "max-exponent-too-small",
+                  "%s emits exponents up to %s (value %s) but qtools "
+                  "reports max exponent %s: integer bits of shifters / po2 "
+                  "accumulators are too few" % (cfg, ehi, F(2) ** ehi, mx),
+                  loc=loc, instance=cfg)
+        rep.check(elo >= -mn, "R3", unit, "min-exponent-too-large",
+                  "%s emits exponents down to %s but qtools reports min "
+                  "exponent -%s: fractional bits of shifters / po2 "
+                  "accumulators are too few" % (cfg, elo, mn),
+                  loc=loc, instance=cfg)
+  if n < 100:
+    raise AnalysisError("instance-count only %d po2 configurations "
+                        "compared" % n)
+
+
 def run(rep, repo, tier):
   rep.trusted.append("the factories' own arithmetic is C16/C17; here only "
                      "which values are wired where")
@@ -279,5 +348,7 @@ def run(rep, repo, tier):
                          "this check")
   rule_wiring(rep, repo)
   rule_channel_loop(rep, repo)
+  rule_po2_exponents(rep, repo, tier)
+  rep.require_instances("R3", 200)
   rep.require_instances("R1", 40)
   rep.require_instances("R2", 1)
